@@ -192,7 +192,13 @@ def load_known():
             if not ln or ln.startswith("#"):
                 continue
             if ln.startswith("finding:"):
-                kv = dict(t.split("=", 1) for t in ln[len("finding:"):].split() if "=" in t)
+                body = ln[len("finding:"):]
+                what = ""
+                if " what=" in body:
+                    body, what = body.split(" what=", 1)
+                kv = dict(t.split("=", 1) for t in body.split() if "=" in t)
+                if what:
+                    kv["what"] = what
                 kv["_line"] = ln
                 finds.append(kv)
             elif ln.startswith("fixed:"):
